@@ -93,7 +93,7 @@ def step (l : LEnv) (ts : List String) : LEnv × String :=
       let a := match r.added with | some _ => "1" | none => "0"
       ({ l with report := some r },
         s!"status={r.status.name} bool={if r.status.toBool then 1 else 0} added={a} unused={r.unusedEvents} " ++
-        s!"oraclebad={if r.oracleBad then 1 else 0} iterations={r.iterations} lvs={floatBits (lvs e)} " ++
+        s!"oraclebad={if r.oracleBad then 1 else 0} stale={if r.rm.stale then 1 else 0} iterations={r.iterations} lvs={floatBits (lvs e)} " ++
         s!"range={floatBits (effRange e)} nstart={r.pis.addedStartStates} ngoal={r.pis.sampledGoalsCount} " ++
         s!"startm={",".intercalate (r.startM.map toString)} goalm={",".intercalate (r.goalM.map toString)}")
     else (l, "bad-op")
